@@ -42,6 +42,7 @@ func c17Centre(chain []uint64, limbs []uint64) (x *big.Int, ok bool) {
 func c17Probes(c *Ctx) {
 	safe := func(name string, f func(*Ctx)) { c17Safe(c, name, f) }
 	safe("views", c17ProbeViews)
+	safe("sparse-signs", c17ProbeSparseSigns)
 	safe("determinism", c17ProbeDeterminism)
 	safe("uniform", c17ProbeUniform)
 	safe("ternary", c17ProbeTernary)
